@@ -712,7 +712,10 @@ func c10Scenarios(prop string, thorough bool) []c10Scenario {
 	// S5: authorizers on a consensus node that is voted OUT of consensus while part of their stake is
 	// un-authorized and still frozen (the split after a demotion divides by a snapshot that excludes it)
 	s5 := cat(s1, "addinit:P8:5000", "commit", "auth:O2:P8:40000", "auth:A2:P8:500", "commit", "income:1000000007", "unauth:O2:P8:39500", "redinit:P8:5000", "commit", "income:1000000007")
-	out := []c10Scenario{{"F/S0", "F", nil}, {"F/S1", "F", s1}, {"F/S2", "F", s2}, {"F/S5", "F", s5}}
+	// S6: a node paid by the CANDIDATE loop whose received authorization exceeds its own init pos (TotalPos > InitPos)
+	// and whose owner shares income with the authorizers
+	s6 := cat(s1, "auth:O2:P8:40000", "auth:A2:P8:500", "commit", "income:1000000007", "commit", "income:1000000007")
+	out := []c10Scenario{{"F/S0", "F", nil}, {"F/S1", "F", s1}, {"F/S2", "F", s2}, {"F/S5", "F", s5}, {"H/S6", "H", s6}}
 	if prop == "C11" {
 		out = append(out, c10Scenario{"F/S3", "F", s3}, c10Scenario{"F/S4", "F", s4})
 		out = append(out, c10Scenario{"U/S0", "U", nil}, c10Scenario{"U/S2", "U", s2})
